@@ -795,6 +795,7 @@ func TestCheck(t *testing.T) {
 	rec.Assume("outside the claim: fixed-point types, zero-length fixed arrays / zero-size array elements, tuple member names that collide with default index names, strings that are not valid UTF-8, float serializers")
 	rec.Assume("number-if-fits is read as: JSON number iff |i| <= 2^53-1 (the JavaScript safe-integer range), else base-10 string")
 	kDec := evid.NewKind(rec, "decode", judgeDecode)
+	cpool := evid.NewPool(rec, "concurrent", judgeDecode, 64)
 	rec.Corpus(t)
 
 	t.Run("exhaustive-integer-boundaries", func(t *testing.T) { sweep(t, rec, kDec) })
@@ -821,8 +822,10 @@ func TestCheck(t *testing.T) {
 		}
 		nt, cl := caseClasses(ty, v)
 		cl = append(cl, comboClasses(c.Combos)...)
+		cpool.Offer(c)
 		kDec.Check(rt, c, nt, cl...)
 	})
+	cpool.Run(t, 8, 3, 16)
 }
 
 // sweep: every integer type x boundary values (range ends, 0, +-1, +-(2^53-2 … 2^53+2)) decoded
@@ -882,5 +885,6 @@ func sweep(t *testing.T, rec *evid.Recorder, k *evid.Kind[DecodeCase]) {
 func TestReplay(t *testing.T) {
 	rec := evid.Start("C03", rule)
 	evid.NewKind(rec, "decode", judgeDecode)
+	evid.NewPool(rec, "concurrent", judgeDecode, 0)
 	rec.Replay(t)
 }
